@@ -47,7 +47,7 @@ def containment_atoms(d):
 
 
 UNORDERED = ("FuturesUnordered", "buffer_unordered", "for_each_concurrent", "select_all", "SelectAll", "hash::map::HashMap", "hash::set::HashSet",
-             "try_buffer_unordered", "par_iter")
+             "try_buffer_unordered", "par_iter", "sort_unstable", "select_nth_unstable", "BinaryHeap")
 
 
 def run(ctx):
@@ -211,6 +211,30 @@ def run(ctx):
                                     ok = True
                 ctx.require(ok, "R03.5", "add-line-scope:" + fname, "add_line is given Some(get_applies_in_path(origin, file))", body.loc(t.line),
                             fail="%s adds a pattern line without (or with a different) directory scope: patterns of an ignore file would apply outside its directory" % fname)
+            # every GitignoreBuilder is rooted at the directory it is stored under (anchored patterns are relative to the builder's root)
+            for fn in [body] + [c for c in facts.descendants(body) if c.kind == "closure"]:
+                for bi, t in fn.calls():
+                    if not t.callee.is_("ignore::gitignore::GitignoreBuilder::new"):
+                        continue
+                    kinds = set()
+                    for a in origins(fn, t.args[0], VALUE_CALLS + ("core::convert::AsRef::as_ref",)):
+                        if a.kind == "call" and fn.blocks[a.data].term.callee.is_("filter::get_applies_in_path"):
+                            kinds.add("applies_in")
+                        elif a.kind == "upvar" and a.data == "applies_in":
+                            kinds.add("applies_in")
+                        elif (a.kind == "upvar" and a.data == "origin") or (a.kind == "arg") or \
+                                (a.kind == "call" and fn.blocks[a.data].term.callee.is_("ignore_files::simplify_path", "simplify_path", "tokio::fs::canonicalize::canonicalize")):
+                            kinds.add("origin")
+                        else:
+                            kinds.add("other:" + repr(a))
+                    if fname in ("add_file", "add_globs"):
+                        okk = kinds == {"applies_in"}
+                    else:
+                        okk = kinds <= {"applies_in", "origin"} and bool(kinds)
+                    ctx.require(okk, "R03.5", "builder-root:%s:%s" % (fname, "+".join(sorted(kinds))),
+                                "a new GitignoreBuilder in %s is rooted at %s" % (fname, sorted(kinds)), fn.loc(t.line),
+                                fail="%s creates the pattern builder of a directory rooted at %s instead of that directory: anchored patterns (/x, a/b) of "
+                                     "its ignore file are matched relative to the wrong directory" % (fname, sorted(kinds)))
             ins = [(bi, t) for bi, t in body.calls() if t.callee.krate == "radix_trie" and t.callee.path.endswith("::insert")]
             for bi, t in ins:
                 ks = origins(body, t.args[1], VALUE_CALLS + ("alloc::string::ToString::to_string", "std::path::Path::display", "core::ops::deref::Deref::deref"))
